@@ -200,7 +200,8 @@ def run_cmd(cmd, cwd, timeout, mem_gb=None, logfile=None, env=None):
 
 class Harness:
     def __init__(self, name, bound, functions, clause, timeout=900, mem_gb=16,
-                 extra=None, stubs=None, min_covers=1, witness_class=None, mod=None, cover_group=None):
+                 extra=None, stubs=None, min_covers=1, witness_class=None, mod=None, cover_group=None,
+                 recursion_bounds=None):
         self.name = name
         self.mod = mod                # module path inside the crate, e.g. "eval::verif_c03_eval"
         self.bound = bound            # text: stated bound
@@ -215,6 +216,9 @@ class Harness:
         # covers of harnesses sharing a cover_group only need to be satisfied in ONE harness of the
         # group (arms of a shape split); covers whose description starts with "each:" in every one
         self.cover_group = cover_group
+        # [(regex over the pretty function name, bound)]: recursion bound for specific (drop-glue)
+        # functions, passed to CBMC as --unwindset with the unwinding assertion kept
+        self.recursion_bounds = recursion_bounds or []
 
 
 class KaniResult:
@@ -319,7 +323,7 @@ def parse_kani(out, res):
         unwind = [p for p in res.failed_props if p not in real]
         # a failed check inside the harness code that is not one of its stated property
         # assertions ("Cnn ...") is a defect of the machinery (e.g. an index error in a stub)
-        infra = [p for p in real if "/harness/" in p[2] and not re.match(r"C\d\d ", p[1])]
+        infra = [p for p in real if "/harness/" in p[2] and not re.match(r"C\d\d ", p[1].strip('"\\ '))]
         real = [p for p in real if p not in infra]
         if infra and not real:
             res.status = "inconclusive"
@@ -381,9 +385,31 @@ class KaniSession:
             raise Inconclusive("Kani build of %s failed (rc=%s): %s" % (self.pkg or self.cwd, rc, tail))
         self.built = True
 
+    def unwindset_args(self, h):
+        """Resolve h.recursion_bounds to mangled identifiers read from the harness's goto binary."""
+        if not h.recursion_bounds:
+            return []
+        import glob
+        outs = [p for p in glob.glob(os.path.join(self.target, "kani", "**", "out", "*.out"), recursive=True)
+                if p.endswith(h.name + ".out")]
+        if not outs:
+            return []
+        rc, out, _ = run_cmd(["goto-instrument", "--list-goto-functions", outs[0]], self.cwd, 600)
+        pairs = []
+        for line in out.splitlines():
+            m = re.match(r"^(.*) /\* (\S+) \*/$", line.strip())
+            if not m:
+                continue
+            for rx, bound in h.recursion_bounds:
+                if re.search(rx, m.group(1)):
+                    pairs.append("%s:%d" % (m.group(2), bound))
+        if not pairs:
+            return []
+        return ["-Z", "unstable-options", "--cbmc-args", "--unwindset", ",".join(sorted(set(pairs)))]
+
     def run_one(self, h, extra_kani=None):
         res = KaniResult(h)
-        cmd = self.base_cmd() + self.sel(h) + h.extra + (extra_kani or [])
+        cmd = self.base_cmd() + self.sel(h) + h.extra + (extra_kani or []) + self.unwindset_args(h)
         logfile = os.path.join(self.w.root, "log-%s.txt" % h.name)
         rc, out, dt = run_cmd(cmd, self.cwd, h.timeout, mem_gb=h.mem_gb, logfile=logfile)
         res.wall_s = dt
@@ -453,7 +479,8 @@ class KaniSession:
 
     def harness_source(self, h):
         """Locate the scratch copy of the harness source that defines fn <name>."""
-        pat = re.compile(r"\bfn\s+%s\s*\(" % re.escape(h.name))
+        # harness functions are often generated by a macro invocation that only mentions the name
+        pat = re.compile(r"\b%s\b" % re.escape(h.name))
         for base in (os.path.join(self.w.hdir, "incrate"), os.path.join(self.w.hdir, "ext")):
             for d, _, files in os.walk(base):
                 for fn in files:
@@ -535,6 +562,8 @@ class Outcome:
         self.engines = []
         self.functions = set()
         self.extra = {}
+        self.max_replays = 2
+        self.unreplayed = []
         self.evaluations = 0
         self.nontrivial = 0
         self.solver_s = 0.0
@@ -565,7 +594,12 @@ class Outcome:
             self.queries += r.sat_queries
             for fn in r.h.functions:
                 self.functions.add(fn)
-            if r.status == "failed":
+            if r.status == "failed" and len(self.violations) >= self.max_replays:
+                # enough counterexamples were already replayed and confirmed natively in this run
+                r.replay = {"note": "not replayed: %d counterexamples of this run were already confirmed natively"
+                                    % self.max_replays}
+                self.unreplayed.append(r.h.name)
+            elif r.status == "failed":
                 reproduced = session.replay(r, prop_id)
                 if reproduced and confirm:
                     ok2, note2 = confirm(r)
@@ -608,6 +642,7 @@ class Outcome:
             "obligation_results": self.obligations,
             "inconclusive": self.inconclusive,
             "known_findings_hit": [k for k, _ in self.known_hits],
+            "failed_but_not_replayed": self.unreplayed,
         }
         cov.update(self.extra)
         ev = {
